@@ -1755,7 +1755,7 @@ def modopt_cases(tier, seed):
     for codec in MODOPT_CODECS:
         for decl in ("comment", "ie"):
             for oname in MODOPT_OPTIONS:
-                for body in ("text", "text+module-block", "pyblock"):
+                for body in ("text", "text+module-block", "pyblock", "pyblock-raw-string", "identifier"):
                     yield {"kind": "modopt", "codec": codec, "decl": decl, "opt": oname, "body": body}
 
 
@@ -1770,6 +1770,11 @@ def run_modopt_case(c, env, st):
         src, closed = "[" + ch + "]${'" + ch + "'}\n", "[" + ch + "]" + ch + "\n"
     elif c["body"] == "text+module-block":
         src, closed = "<%! zz = '" + ch + "' %>[" + ch + "]${zz}\n", "[" + ch + "]" + ch + "\n"
+    elif c["body"] == "pyblock-raw-string":
+        # places where an escape sequence is NOT another spelling of the character: a raw string, after a backslash
+        src, closed = "<% zz = r'" + ch + "' %>[${zz}]${len(r'" + ch + "')}${'\\" + "\\" + ch[0] + "'}\n", "[" + ch + "]" + str(len(ch)) + "\\" + ch[0] + "\n"
+    elif c["body"] == "identifier":
+        src, closed = "<% z" + ch[0] + " = '" + ch + "' %>[${z" + ch[0] + "}]\n", "[" + ch + "]\n"
     else:
         src, closed = "<% zz = '" + ch + "' %>[${zz}]" + ch + "\n", "[" + ch + "]" + ch + "\n"
     with open(fn, "wb") as f:
